@@ -83,6 +83,14 @@ class Run(object):
         self.steps += 1
         return self.steps > self.max_steps or self.rng.random() < 0.3
 
+    def RECUR(self):
+        # bounded recursion budget for generated self-calls
+        left = getattr(self, "rec_left", 2)
+        if left > 0 and self.rng.random() < 0.5:
+            self.rec_left = left - 1
+            return True
+        return False
+
     def TL(self):
         # guard of skeleton `while` loops: only the loop budget ends them
         self.loops = getattr(self, "loops", 0) + 1
@@ -328,7 +336,7 @@ class Run(object):
         ns_obj.meth = FN
 
         return dict(
-            S=mkS, A=mkA, P=self.P, CP=__import__("functools").partial(self.P), D=self.D, R=self.R, M=self.M, T=self.T, TL=self.TL, V=self.V, CHK=self.CHK,
+            S=mkS, A=mkA, P=self.P, CP=__import__("functools").partial(self.P), D=self.D, R=self.R, M=self.M, T=self.T, TL=self.TL, RECUR=self.RECUR, V=self.V, CHK=self.CHK,
             sus=self.sus, pre=self.pre, post=self.post,
             E1=E1, E2=E2, LoopLimit=LoopLimit,
             NS=ns_obj, ARR=[None] * 8, DCT={}, FN=FN, LFN=FN, IDX=2, KEY="key", sys=sys,
